@@ -543,7 +543,11 @@ def stepDriver (d : DSt) (op implObs : String) : DSt × String × List String :=
           let ev := (e.splitOn ":").getD 1 ""
           if ev = "started" || ev = "none" || ev = "completed" then some s!"C15 announce-from-stopped-torrent entry={e}" else none
         else []
-      let annViol := leftViol ++ stoppedViol ++
+      -- pacing: the trackers of the harness answer `interval 1800`, the client's minimum is a minute: an
+      -- announce without an event never falls inside a case
+      let paceViol := implAnn.filterMap fun e =>
+        if (e.splitOn ":").getD 1 "" = "none" then some s!"C15 regular-announce-before-the-minimum-interval entry={e}" else none
+      let annViol := leftViol ++ stoppedViol ++ paceViol ++
         (implAnn.filterMap fun e =>
           if (e.splitOn "!mismatch").length ≥ 2 || (e.splitOn ":bad:").length ≥ 2 || e.endsWith ":bad" || e.endsWith ":Pbad" then some s!"C15 announce-identity-differs-from-torrent entry={e}" else none) ++
         (if st2.cfg.isPrivate && st2.infoAtAdd then implAnn.filterMap fun e =>
